@@ -28,7 +28,63 @@ def FLedInv (l : FLed) : Prop := 0 ≤ l.brightness ∧ l.brightness ≤ 255 ∧
 
 theorem led_clamped (l : FLed) (op : FLedOp K) :
     (∀ d ∈ dutiesOf (FLed.step l op).evs, 0 ≤ d ∧ d ≤ 255) ∧ (FLedInv l → FLedInv (FLed.step l op).st) := by
-  sorry
+  open Lemmas.C04 Lemmas.C19 in
+  show (∀ d ∈ dutiesL _, _) ∧ (LedInvL l → LedInvL _)
+  cases op with
+  | on => simp [FLed.step, LedInvL]
+  | off => simp [FLed.step, LedInvL]
+  | toggle =>
+    simp only [FLed.step]
+    refine ⟨by simp, fun _ => ?_⟩
+    cases l.state <;> simp [LedInvL]
+  | setBrightness v =>
+    simp only [FLed.step, FLed.setPwm]
+    have hb := clamp255_bounds (toCInt v)
+    refine ⟨?_, fun _ => ?_⟩
+    · intro d hd
+      simp only [dutiesL_cons_aWrite, dutiesL_nil, List.mem_singleton] at hd
+      subst hd; exact hb
+    · exact ⟨hb.1, hb.2, by simp⟩
+  | blink d times =>
+    simp only [FLed.step]
+    cases toULong d with
+    | none => exact ⟨by simp, id⟩
+    | some ms => simp [dutiesL_blinkLoop, LedInvL]
+  | fadeIn stepv delay =>
+    simp only [FLed.step]
+    cases toULong delay with
+    | none => exact ⟨by simp, id⟩
+    | some ms =>
+      simp only []
+      split
+      · refine ⟨?_, fun _ => by simp [LedInvL]⟩
+        intro d hd
+        simp only [dutiesL_append, List.mem_append] at hd
+        rcases hd with hd | hd
+        · exact fadeIn_duties _ _ _ _ _ (clamp255_bounds _).1 d hd
+        · simp at hd; omega
+      · exact ⟨by simp, id⟩
+  | fadeOut stepv delay =>
+    simp only [FLed.step]
+    cases toULong delay with
+    | none => exact ⟨by simp, id⟩
+    | some ms =>
+      simp only []
+      split
+      · refine ⟨?_, fun _ => by simp [LedInvL]⟩
+        intro d hd
+        simp only [dutiesL_append, List.mem_append] at hd
+        rcases hd with hd | hd
+        · exact fadeOut_duties _ _ _ _ _ (clamp255_bounds _).2 d hd
+        · simp at hd; omega
+      · exact ⟨by simp, id⟩
+  | flashPattern p delay =>
+    simp only [FLed.step]
+    split
+    · exact ⟨by simp, id⟩
+    · cases toULong delay with
+      | none => exact ⟨by simp, id⟩
+      | some ms => exact flashLoop_clamped _ _ _ _
 
 def FRgbInv (s : FRgb) : Prop :=
   (0 ≤ s.color.1 ∧ s.color.1 ≤ 255) ∧ (0 ≤ s.color.2.1 ∧ s.color.2.1 ≤ 255) ∧ (0 ≤ s.color.2.2 ∧ s.color.2.2 ≤ 255)
